@@ -2,8 +2,10 @@
 //! interleaving of the library's scheduling points, on the virtual clock.
 //! case: base_ms fresh(0/1) nthreads { nops (B batch inbound | X)* }*  nsteps (tid dt_ms)*
 //!       a step advances the clock by dt_ms and then lets thread tid run to its next point
-//! out : all_done ntrace (tid point)* ; nbuilds (tid node_token)* ; final: node_token inflight pass complete rt
-//!       inbound: inflight pass complete rt
+//!       fresh: 0 = the resource saw one inbound entry 60 s earlier, 1 = brand new, 2 = one inbound entry at base
+//! out : all_done ntrace (tid point)* ; nbuilds (tid node_token batch inbound)* ; nexits (tid batch inbound rt)* ;
+//!       final: node_token inflight pass complete rt ; inbound: inflight pass complete rt
+//!       (rt of an exit = virtual clock at the exit call - virtual clock at the build call, read by the harness)
 use crate::sched;
 use crate::util::*;
 use sentinel_core::base::{ConcurrencyStat, EntryStrongPtr, MetricEvent, ReadStat, TrafficType};
@@ -12,21 +14,7 @@ use sentinel_core::{stat, EntryBuilder};
 use std::collections::HashMap;
 use std::sync::{Arc, Mutex};
 
-pub fn point_code(name: &str) -> i128 {
-    match name {
-        "start" => 0,
-        "ns:miss" => 1,
-        "la:loop" => 2,
-        "la:mid_reset" => 3,
-        "mb:add" => 4,
-        "rn:inc" => 5,
-        "rn:dec" => 6,
-        "cb:state_read" => 7,
-        "cb:before_decide" => 8,
-        "panic" => 9,
-        _ => 99,
-    }
-}
+use crate::sched::point_code;
 
 pub fn run_case(t: &mut Toks) -> Vec<i128> {
     let mut out = Vec::new();
@@ -34,9 +22,10 @@ pub fn run_case(t: &mut Toks) -> Vec<i128> {
     clock::set_ms(base);
     let fresh = t.u64();
     let name = String::from("conc_res");
-    if fresh == 0 {
-        // the resource (and the inbound node) already exist and have seen traffic in an older window
-        clock::set_ms(base - 60_000);
+    if fresh == 0 || fresh == 2 {
+        // the resource (and the inbound node) already exist and have seen traffic in an older window (0)
+        // or in the current bucket (2)
+        clock::set_ms(if fresh == 0 { base - 60_000 } else { base });
         if let Ok(e) = EntryBuilder::new(name.clone()).with_traffic_type(TrafficType::Inbound).build() {
             e.exit();
         }
@@ -57,24 +46,29 @@ pub fn run_case(t: &mut Toks) -> Vec<i128> {
     }
     let ns = t.usize();
     let steps: Vec<(usize, u64)> = (0..ns).map(|_| (t.usize(), t.u64())).collect();
-    let nodes: Arc<Mutex<Vec<(usize, usize)>>> = Arc::new(Mutex::new(Vec::new()));
+    let nodes: Arc<Mutex<Vec<(usize, usize, u32, u64)>>> = Arc::new(Mutex::new(Vec::new()));
+    let exits: Arc<Mutex<Vec<(usize, u32, u64, u64)>>> = Arc::new(Mutex::new(Vec::new()));
     let mut bodies: Vec<Box<dyn FnOnce() + Send>> = Vec::new();
     for (tid, prog) in progs.into_iter().enumerate() {
         let name = name.clone();
         let nodes = nodes.clone();
+        let exits = exits.clone();
         bodies.push(Box::new(move || {
-            let mut open: Vec<EntryStrongPtr> = Vec::new();
+            let mut open: Vec<(EntryStrongPtr, u32, u64, u64)> = Vec::new();
             for (kind, batch, inbound) in prog {
                 if kind == 0 {
+                    let t0 = sentinel_core::utils::curr_time_millis();
                     let b = EntryBuilder::new(name.clone())
                         .with_batch_count(batch)
                         .with_traffic_type(if inbound == 1 { TrafficType::Inbound } else { TrafficType::Outbound });
                     if let Ok(e) = b.build() {
                         let p = e.context().read().unwrap().stat_node().map(|n| Arc::as_ptr(&n) as *const u8 as usize).unwrap_or(0);
-                        nodes.lock().unwrap().push((tid, p));
-                        open.push(e);
+                        nodes.lock().unwrap().push((tid, p, batch, inbound));
+                        open.push((e, batch, inbound, t0 as u64));
                     }
-                } else if let Some(e) = open.pop() {
+                } else if let Some((e, batch, inbound, t0)) = open.pop() {
+                    let t1 = (sentinel_core::utils::curr_time_millis()) as u64;
+                    exits.lock().unwrap().push((tid, batch, inbound, t1 - t0));
                     e.exit();
                 }
             }
@@ -86,7 +80,7 @@ pub fn run_case(t: &mut Toks) -> Vec<i128> {
         if dts[i] > 0 {
             clock::advance_ns(dts[i] as i128 * 1_000_000);
         }
-    });
+    }, |n| !n.starts_with("cb:") && !n.starts_with("lk:"));
     out.push(all_done as i128);
     out.push(trace.len() as i128);
     for (tid, p) in &trace {
@@ -99,8 +93,13 @@ pub fn run_case(t: &mut Toks) -> Vec<i128> {
     };
     let ns = nodes.lock().unwrap().clone();
     out.push(ns.len() as i128);
-    for (tid, p) in ns {
-        out.extend([tid as i128, tok(p)]);
+    for (tid, p, batch, inbound) in ns {
+        out.extend([tid as i128, tok(p), batch as i128, inbound as i128]);
+    }
+    let xs = exits.lock().unwrap().clone();
+    out.push(xs.len() as i128);
+    for (tid, batch, inbound, rt) in xs {
+        out.extend([tid as i128, batch as i128, inbound as i128, rt as i128]);
     }
     match stat::get_resource_node(&name) {
         Some(n) => {
